@@ -308,7 +308,7 @@ def part_a(ck, wd):
 # --------------------------------------------------------------------------
 # (B) formulas -> real writer -> lexer -> TLC
 # --------------------------------------------------------------------------
-def edge_formulas():
+def edge_formulas(quick=True):
     from cnfgen import CNF
     out = []
 
@@ -324,6 +324,10 @@ def edge_formulas():
     add("rep-opp-dup", CNF([[1, 1], [1, -1], [1, 1], [-1, 1]]))
     add("wide-clause", CNF([list(range(1, 61)), [-k for k in range(1, 61)]]))
     add("many-units", CNF([[(-1) ** k * (1 + k % 3)] for k in range(200)]))
+    # sizes around the powers of two a buffered writer or reader would pick
+    for m in (1023, 4097, 9000) + (() if quick else (16385, 33000, 66000)):
+        add("large-%d" % m, CNF([[(-1) ** k * (1 + k % 7)] + ([1 + (k * 5) % 7] if k % 3 == 0 else []) +
+                                 ([] if k % 1000 else [-(1 + k % 5), 6]) for k in range(m)]))
     add("description-none", CNF([[1, 2]], description=None))
     descs = {
         "percent": "100% of $HOME {0} {} %s \\n",
@@ -598,6 +602,32 @@ def valid_text(rng):
     return "".join(parts)
 
 
+def layout_text(rng):
+    """A valid formula in a free layout: clauses broken over lines, several clauses on a line, comments
+    and blank lines anywhere between two tokens."""
+    n = rng.randint(1, 6)
+    m = rng.randint(0, 9)
+    toks = []
+    for _ in range(m):
+        toks += [str(rng.choice([-1, 1]) * rng.randint(1, n)) for _ in range(rng.choice((0, 1, 1, 2, 2, 3, 4)))]
+        toks.append("0")
+    style = rng.choice(("lines", "free", "free", "dense", "tokens"))
+    parts = [rng.choice(["", "c a comment\n", "c\n\n"]), "p cnf %d %d" % (n, m), rng.choice(["\n", " \n", "\r\n"])]
+    for k, t in enumerate(toks):
+        parts.append(t)
+        if k == len(toks) - 1:
+            parts.append(rng.choice(["\n", "", " ", "\n\n", "\nc end\n"]))
+        elif style == "lines":
+            parts.append("\n" if t == "0" else " ")
+        elif style == "dense":
+            parts.append(" " if rng.random() < .85 else "\n")
+        elif style == "tokens":
+            parts.append("\n")
+        else:
+            parts.append(rng.choice([" ", " ", " ", "\n", "\n", "  ", "\t", "\n\n", "\nc mid\n", " \n "]))
+    return "".join(parts)
+
+
 def mutate(text, rng):
     ops = rng.randint(1, 3)
     for _ in range(ops):
@@ -662,6 +692,9 @@ def corrupted_inputs(ck, writer_texts):
     for t in range(500 if q else 8000):
         base = valid_text(rng)
         out.append(("val-%d" % t, (base if t % 3 == 0 else mutate(base, rng)).encode("utf-8")))
+    for t in range(1200 if q else 12000):
+        base = layout_text(rng)
+        out.append(("lay-%d" % t, (base if t % 4 else mutate(base, rng)).encode("utf-8")))
     for t in range(500 if q else 8000):
         out.append(("soup-%d" % t, soup(rng).encode("utf-8")))
     for t in range(60 if q else 600):
@@ -799,7 +832,7 @@ def replay_one(ck, wd, rec):
     ck.tier, ck.seed = rec.get("tier", ck.tier), rec.get("seed", ck.seed)
     ck.quick = ck.tier == "quick"
     ck.rng = _random.Random(ck.seed * 1000003 + sum(map(ord, ck.pid)))
-    formulas = edge_formulas() + filename_roundtrip(ck, wd) + family_formulas(ck)
+    formulas = edge_formulas(ck.quick) + filename_roundtrip(ck, wd) + family_formulas(ck)
     recs, _ = write_records(ck, wd, formulas)
     ck.judge("JudgeDimacs", recs, cfg="JudgeDimacs.cfg", keyf=keyf, weight=weight)
 
@@ -820,7 +853,7 @@ def main(argv=None):
     npaths = part_a(ck, wd)
 
     # (B)
-    formulas = edge_formulas() + filename_roundtrip(ck, wd) + family_formulas(ck)
+    formulas = edge_formulas(ck.quick) + filename_roundtrip(ck, wd) + family_formulas(ck)
     wrecs, texts = write_records(ck, wd, formulas)
     for r in wrecs:
         r["tier"], r["seed"] = ck.tier, ck.seed
